@@ -133,6 +133,20 @@ func replayDet(line []byte, a *Acc) {
 			if !check("AnyXml", ax, err, l.X) {
 				return
 			}
+			// prefix / indent strings made of blanks, tabs and spaces of equal width after one another: the prefixed form is the
+			// unprefixed form with the prefix in front of every line (whatever was encoded before), and token-equal to the compact form
+			if rep == 0 && !strings.Contains(l.X, "\n") {
+				for _, pi := range [][2]string{{"\t\t", "\t"}, {"  ", "\t"}, {" ", "  "}, {"\t", "  "}, {"  ", " "}, {"\t\t", " "}} {
+					plain, e0 := m.XmlIndent("", pi[1])
+					pref, e1 := m.XmlIndent(pi[0], pi[1])
+					want := pi[0] + strings.ReplaceAll(string(plain), "\n", "\n"+pi[0])
+					tp, te := significantTokens(pref, false)
+					if e0 != nil || e1 != nil || string(pref) != want || te != nil || strings.Join(tp, "\x00") != strings.Join(ts, "\x00") {
+						one("det:XmlIndent-prefix", fmt.Sprintf("XmlIndent(%q, %q) = %q (%v); XmlIndent(\"\", %q) with the prefix before every line is %q (%v)", pi[0], pi[1], pref, e1, pi[1], want, e0))
+						return
+					}
+				}
+			}
 			// a single key holding a list with a member that is not a map, in either order: the default root, in every variant
 			// (Map.Xml() = Map.Xml("doc"); the indented form differs in inter-element white space only)
 			if rep == 0 {
